@@ -24,6 +24,9 @@ Section Proofs.
 
   (* ---------------- per-circuit invariant ---------------- *)
 
+  Definition out_added (c : circ) : bool :=
+    match os c with OAdded _ => true | _ => false end.
+
   Definition wf (c : circ) : Prop :=
     (forall ok p, os c = OSettled ok p -> H p = chash c) /\
     (forall p, mb c = RSettle p -> exists ok, os c = OSettled ok p) /\
@@ -36,7 +39,8 @@ Section Proofs.
     (loaded c = true -> cs c = CHalf -> os c = ONone /\ pk c = false) /\
     (resolved c = true -> (cs c = CNone \/ cs c = CDeleted) /\ mb c = RNone) /\
     (cs c = CDeleted -> resolved c = true) /\
-    (fwd c = false -> cs c = CNone).
+    (fwd c = false -> cs c = CNone) /\
+    (loaded c = true -> out_added c = false).
 
   Ltac brk :=
     repeat match goal with
@@ -91,10 +95,10 @@ Section Proofs.
               | eexists; reflexivity | exfalso; congruence].
 
   Lemma new_circ_wf : forall k h ai ao oc, wf (new_circ k h ai ao oc).
-  Proof. intros; unfold wf, new_circ; cbn; fin. Qed.
+  Proof. intros; unfold wf, out_added, new_circ; cbn; fin. Qed.
 
   Ltac unwf Hw :=
-    destruct Hw as (W1 & W2 & W3 & W4 & W5 & W6 & W7 & W8 & W9 & W10 & W11 & W12).
+    destruct Hw as (W1 & W2 & W3 & W4 & W5 & W6 & W7 & W8 & W9 & W10 & W11 & W12 & W13).
 
   Ltac use_all :=
     repeat match goal with
@@ -118,7 +122,7 @@ Section Proofs.
     destruct c as [k h ai ao oc fw ld cl pkk s o m i].
     destruct a; cbn in Ha; unfold pkt_live, is_locked, mb_none, os_none, cs_half in Ha;
       cbn in *; brk; cbn in *; subst;
-      unfold wf, out_dead, resolved in *; cbn in *.
+      unfold wf, out_dead, out_added, resolved in *; cbn in *.
     all: fin.
   Qed.
 
@@ -132,10 +136,44 @@ Section Proofs.
   Proof.
     intros c Hw. unwf Hw.
     destruct c as [k h ai ao oc fw ld cl pkk s o m i].
-    unfold restart1, wf, out_dead, resolved in *; cbn in *.
+    unfold restart1, wf, out_dead, out_added, resolved in *; cbn in *.
     destruct s, o, i; cbn in *.
     all: fin.
   Qed.
+
+  Lemma lrestart1_static : forall ch c,
+    ck (lrestart1 ch c) = ck c /\ chash (lrestart1 ch c) = chash c /\
+    ain (lrestart1 ch c) = ain c /\ aout (lrestart1 ch c) = aout c /\
+    ochan (lrestart1 ch c) = ochan c.
+  Proof.
+    intros ch c; unfold lrestart1, lrestart_in, lrestart_out.
+    destruct (N.eqb (ochan c) ch); [destruct (os c)|]; cbn;
+      match goal with |- context [N.eqb ?a ?b] => destruct (N.eqb a b) end;
+      try match goal with |- context [match ist ?x with _ => _ end] => destruct (ist x) end;
+      cbn; auto.
+  Qed.
+
+  Lemma lrestart_out_wf : forall ch c, wf c -> wf (lrestart_out ch c).
+  Proof.
+    intros ch c Hw. unfold lrestart_out.
+    destruct (N.eqb (ochan c) ch); [|exact Hw].
+    destruct (os c) eqn:Eo; try exact Hw.
+    unwf Hw. destruct c as [k h ai ao oc fw ld cl pkk s o m i].
+    unfold wf, out_dead, out_added, resolved in *; cbn in *; subst.
+    destruct s; cbn in *; fin.
+  Qed.
+
+  Lemma lrestart_in_wf : forall ch c, wf c -> wf (lrestart_in ch c).
+  Proof.
+    intros ch c Hw. unfold lrestart_in.
+    destruct (N.eqb (fst (ck c)) ch); [|exact Hw].
+    destruct (ist c) eqn:Ei; try exact Hw;
+    unwf Hw; destruct c as [k h ai ao oc fw ld cl pkk s o m i];
+    unfold wf, out_dead, out_added, resolved in *; cbn in *; subst; fin.
+  Qed.
+
+  Lemma lrestart1_wf : forall ch c, wf c -> wf (lrestart1 ch c).
+  Proof. intros; unfold lrestart1; apply lrestart_in_wf, lrestart_out_wf; assumption. Qed.
 
   Lemma sig_out_static : forall ch c,
     ck (fst (sig_out ch c)) = ck c /\ chash (fst (sig_out ch c)) = chash c /\
@@ -160,7 +198,7 @@ Section Proofs.
     destruct (os c) eqn:Eo; try exact Hw.
     destruct (cs c) eqn:Ec; try exact Hw.
     unwf Hw. destruct c as [k h ai ao oc fw ld cl pkk s o m i].
-    unfold wf, out_dead, resolved in *; cbn in *; subst.
+    unfold wf, out_dead, out_added, resolved in *; cbn in *; subst.
     fin.
   Qed.
 
@@ -170,7 +208,7 @@ Section Proofs.
     destruct (N.eqb (fst (ck c)) ch); [|exact Hw].
     destruct (ist c) eqn:Ei; try exact Hw;
     unwf Hw; destruct c as [k h ai ao oc fw ld cl pkk s o m i];
-    unfold wf, out_dead, resolved, commit_in, cs_closed in *; cbn in *; subst;
+    unfold wf, out_dead, out_added, resolved, commit_in, cs_closed in *; cbn in *; subst;
     destruct s; cbn in *; fin.
   Qed.
 
@@ -234,6 +272,16 @@ Section Proofs.
     destruct c as [k h ai ao oc fw ld cl pkk s o m i].
     unfold restart1, contrib, in_chan, out_chan, succeeded, holds, zin, zout; cbn.
     destruct s, o, i; cbn; reflexivity.
+  Qed.
+
+  Lemma lrestart1_contrib : forall ch ch' c, contrib ch' (lrestart1 ch c) = contrib ch' c.
+  Proof.
+    intros ch ch' c.
+    destruct c as [k h ai ao oc fw ld cl pkk s o m i].
+    unfold lrestart1, lrestart_in, lrestart_out, contrib, in_chan, out_chan, succeeded, holds,
+      zin, zout; cbn.
+    destruct (N.eqb oc ch); [destruct o|]; cbn; destruct (N.eqb (fst k) ch); cbn;
+      try reflexivity; destruct i; cbn; reflexivity.
   Qed.
 
   Lemma sig_out_contrib : forall ch ch' c,
@@ -369,6 +417,13 @@ Section Proofs.
     rewrite IH, restart1_contrib; auto.
   Qed.
 
+  Lemma lrestart_map_sum : forall ch ch' l,
+    sumZ (map (contrib ch') (map (lrestart1 ch) l)) = sumZ (map (contrib ch') l).
+  Proof.
+    induction l as [|a r IH]; cbn; [reflexivity|].
+    rewrite IH, lrestart1_contrib; reflexivity.
+  Qed.
+
   Lemma map_keys_eq : forall (f : circ -> circ) l,
     (forall c, ck (f c) = ck c) -> map ck (map f l) = map ck l.
   Proof.
@@ -383,7 +438,7 @@ Section Proofs.
 
   Lemma step_inv : forall b0 st e st', inv b0 st -> step st e = Some st' -> inv b0 st'.
   Proof.
-    intros b0 st e st' [Hn Hw Hb] Hs. destruct e as [k h ai ao oc|k a|ch|]; cbn in Hs.
+    intros b0 st e st' [Hn Hw Hb] Hs. destruct e as [k h ai ao oc|k a|ch| |ch]; cbn in Hs.
     - destruct (find k (circs st)) eqn:Ef; [discriminate|]. inversion Hs; subst; clear Hs.
       constructor; cbn.
       + constructor; [apply find_none; assumption|assumption].
@@ -412,6 +467,10 @@ Section Proofs.
       + rewrite map_keys_eq; [assumption|]. intros c. apply restart1_static.
       + apply forall_map_wf; [|assumption]. exact restart1_wf.
       + intros x. unfold sumc in *. rewrite restart_map_sum, Hb; auto.
+    - inversion Hs; subst; clear Hs. constructor; cbn.
+      + rewrite map_keys_eq; [assumption|]. intros c. apply lrestart1_static.
+      + apply forall_map_wf; [|assumption]. intros c. apply lrestart1_wf.
+      + intros x. unfold sumc in *. rewrite lrestart_map_sum, Hb; auto.
   Qed.
 
   Lemma run_inv : forall b0 evs st st', inv b0 st -> run st evs = Some st' -> inv b0 st'.
@@ -492,13 +551,23 @@ Section Proofs.
     destruct s, o; try discriminate; cbn; auto.
   Qed.
 
+  Lemma lrestart1_frozen : forall ch c, wf c -> ist c = IFailedC ->
+    ist (lrestart1 ch c) = IFailedC /\ os (lrestart1 ch c) = os c.
+  Proof.
+    intros ch c Hw Hi. unwf Hw. destruct W4 as [Hd Hp]; [tauto|].
+    destruct c as [k h ai ao oc fw ld cl pkk s o m i]. cbn in *; subst i.
+    unfold lrestart1, lrestart_in, lrestart_out, out_dead in *; cbn in *.
+    destruct (N.eqb oc ch); [destruct o; try discriminate|]; cbn;
+      destruct (N.eqb (fst k) ch); cbn; auto.
+  Qed.
+
   Lemma step_frozen : forall b0 st e st' c, inv b0 st -> step st e = Some st' ->
     In c (circs st) -> ist c = IFailedC ->
     exists c', In c' (circs st') /\ ck c' = ck c /\ ist c' = IFailedC /\ os c' = os c.
   Proof.
     intros b0 st e st' c [Hn Hw Hb] Hs Hin Hi.
     assert (Hwc : wf c) by (rewrite Forall_forall in Hw; auto).
-    destruct e as [k h ai ao oc|k a|ch|]; cbn in Hs.
+    destruct e as [k h ai ao oc|k a|ch| |ch]; cbn in Hs.
     - destruct (find k (circs st)); [discriminate|]. inversion Hs; subst; clear Hs.
       exists c; cbn; auto.
     - destruct (find k (circs st)) as [c1|] eqn:Ef; [|discriminate].
@@ -519,6 +588,10 @@ Section Proofs.
       destruct (restart1_frozen c Hwc Hi) as [F1 F2].
       exists (restart1 c). split; [apply in_map; assumption|].
       split; [apply restart1_static|auto].
+    - inversion Hs; subst; clear Hs. cbn.
+      destruct (lrestart1_frozen ch c Hwc Hi) as [F1 F2].
+      exists (lrestart1 ch c). split; [apply in_map; assumption|].
+      split; [apply lrestart1_static|auto].
   Qed.
 
   Lemma run_frozen : forall b0 evs st st' c, inv b0 st -> run st evs = Some st' ->
@@ -693,7 +766,7 @@ Section Proofs.
     exists c, In c (circs st) /\ ck c = ck c' /\ os c = OSettled ok p.
   Proof.
     intros st e st' c' ok p Hs Hin Ho.
-    destruct e as [k h ai ao oc|k a|ch|]; cbn in Hs.
+    destruct e as [k h ai ao oc|k a|ch| |ch]; cbn in Hs.
     - destruct (find k (circs st)); [discriminate|]. inversion Hs; subst; clear Hs.
       cbn in Hin. destruct Hin as [<-|Hin]; [cbn in Ho; discriminate|]. right; eauto.
     - destruct (find k (circs st)) as [c1|] eqn:Ef; [|discriminate].
@@ -725,6 +798,15 @@ Section Proofs.
       apply in_map_iff in Hin. destruct Hin as (c & <- & Hc).
       right. exists c. split; [assumption|]. split; [symmetry; apply restart1_static|].
       unfold restart1 in Ho. destruct (cs c), (os c); cbn in Ho; try discriminate; auto.
+    - inversion Hs; subst; clear Hs. cbn in Hin.
+      apply in_map_iff in Hin. destruct Hin as (c & <- & Hc).
+      right. exists c. split; [assumption|]. split; [symmetry; apply lrestart1_static|].
+      unfold lrestart1, lrestart_in, lrestart_out in Ho.
+      destruct (N.eqb (ochan c) ch); [destruct (os c) eqn:Eo|]; cbn in Ho;
+        repeat match type of Ho with
+               | context [if ?b then _ else _] => destruct b; cbn in Ho
+               | context [match ist ?x with _ => _ end] => destruct (ist x); cbn in Ho
+               end; try rewrite Eo in Ho; try discriminate; auto.
   Qed.
 
   Lemma run_settled_origin : forall evs st st' c' ok p, run st evs = Some st' ->
